@@ -52,7 +52,7 @@ SPEC = dict(
         dict(name='insert_walk_step', harness='h_insert_loop0_body', enforce='insert__loop0_body'),
         dict(name='remove', harness='h_remove', enforce='intrusive_heap_remove'),
         dict(name='lemma_heap', harness='lemma_heap', mode='lemma'),
-        dict(name='insert_bounded', harness='h_insert_bounded', mode='bounded', unwind=9, defines=['VF_BOUNDED'], timeout=300),
+        dict(name='insert_bounded', harness='h_insert_bounded', mode='bounded', solver='cadical', unwind=9, defines=['VF_BOUNDED'], timeout=300),
         dict(name='remove_pop_bounded', harness='h_remove_pop_bounded', mode='bounded', unwind=9, defines=['VF_BOUNDED'], timeout=300),
         dict(name='head_min_bounded', harness='h_head_min_bounded', mode='bounded', unwind=9, defines=['VF_BOUNDED'], timeout=300),
     ],
